@@ -502,7 +502,20 @@ impl WalManager {
                 .append(true)
                 .open(&path)?;
 
-            let size = file.metadata()?.len();
+            // A crash can leave a torn frame at the end of the file. Recovery stops a
+            // file at its first bad frame, so anything appended behind one would never
+            // be read back: cut the file at the end of its last good frame first.
+            let mut size = file.metadata()?.len();
+            let valid = Self::valid_prefix_len(&path)?;
+            if valid < size {
+                tracing::warn!(
+                    "WAL file {:?}: dropping {} bytes after the last complete record",
+                    path,
+                    size - valid
+                );
+                file.set_len(valid)?;
+                size = valid;
+            }
 
             *guard = Some(LogFile {
                 writer: BufWriter::new(file),
@@ -512,6 +525,42 @@ impl WalManager {
             });
         }
         Ok(())
+    }
+
+    /// Length of the longest prefix of a log file that consists of complete records
+    /// (length prefix, payload that decodes, matching checksum): what recovery reads.
+    fn valid_prefix_len(path: &Path) -> Result<u64> {
+        let mut reader = BufReader::new(File::open(path)?);
+        let mut valid = 0u64;
+        loop {
+            let mut len_buf = [0u8; 4];
+            if reader.read_exact(&mut len_buf).is_err() {
+                break;
+            }
+            let len = u32::from_le_bytes(len_buf) as u64;
+
+            // read at most `len` bytes: a corrupt length must not drive an allocation
+            let mut data = Vec::new();
+            if (&mut reader).take(len).read_to_end(&mut data)? as u64 != len {
+                break;
+            }
+
+            let mut checksum_buf = [0u8; 4];
+            if reader.read_exact(&mut checksum_buf).is_err()
+                || u32::from_le_bytes(checksum_buf) != crc32fast::hash(&data)
+            {
+                break;
+            }
+
+            let decoded: std::result::Result<(WalRecord, usize), _> =
+                bincode::serde::decode_from_slice(&data, bincode::config::standard());
+            if decoded.is_err() {
+                break;
+            }
+
+            valid += 4 + len + 4;
+        }
+        Ok(valid)
     }
 
     fn log_path(&self, sequence: u64) -> PathBuf {
